@@ -420,7 +420,11 @@ impl<'a> CRTDetBuilder<'a> {
                     continue 'crtloop;
                 }
             }
-            mp.add(nth_row);
+            if !mp.add(nth_row) {
+                // Determinant is zero mod p: the last row is dependent modulo p.
+                modp.push(0);
+                continue 'crtloop;
+            }
             let dp = mp.det();
             modp.push(dp);
         }
